@@ -8,6 +8,7 @@ import AnySyncModel.Driver.Sync
 import AnySyncModel.Driver.PubSub
 import AnySyncModel.Driver.Keys
 import AnySyncModel.Driver.Ldiff
+import AnySyncModel.Driver.KV
 /-!
 `modeld <area>`: reads one operation per line on stdin, prints exactly one line per operation.
 Stateless areas expose `step : String → String`; stateful areas expose
@@ -44,4 +45,5 @@ def main (args : List String) : IO UInt32 := do
   | ["pubsub"] => loopState stdin stdout Driver.PubSub.step Driver.PubSub.init; return 0
   | ["keys"] => loopState stdin stdout Driver.Keys.step Driver.Keys.init; return 0
   | ["ldiff"] => loopState stdin stdout Driver.Ldiff.step Driver.Ldiff.init; return 0
+  | ["kv"] => loopState stdin stdout Driver.KV.step Driver.KV.init; return 0
   | _ => IO.eprintln s!"modeld: unknown area {args}"; return 2
